@@ -167,9 +167,12 @@ HttpHdrCc::parse(const String & str)
             break;
 
         case HttpHdrCcType::CC_MAX_STALE:
-            if (!p || !httpHeaderParseInt(p, &max_stale) || max_stale < 0) {
+            if (!p) {
                 debugs(65, 2, "cc: max-stale directive is valid without value");
                 maxStale(MAX_STALE_ANY);
+            } else if (!httpHeaderParseInt(p, &max_stale) || max_stale < 0) {
+                debugs(65, 2, "cc: invalid max-stale specs near '" << item << "'");
+                clearMaxStale();
             } else {
                 setMask(type,true);
             }
